@@ -145,6 +145,36 @@ def request_refusal(ctx):
                     ctx.ob(P, 'RF2-csdo-request', f, site, 'refused untouched' if st != IDLE else 'initiated')
 
 
+def request_all_or_nothing(ctx):
+    """A request on an idle client is all-or-nothing whatever the timer manager answers: a path that returns an error must
+    leave the client not BUSY (a client marked busy with no request on the bus and no timeout action is never finalised:
+    every later request is refused as busy); a path that returns 0 has sent the request."""
+    m = ctx.m
+    BUSY, IDLE = m.enum('CO_CSDO_STATE_BUSY'), m.enum('CO_CSDO_STATE_IDLE')
+    for f in ('COCSdoRequestUpload', 'COCSdoRequestDownload'):
+        for tmr in (2, -1, None):
+            inputs = {'csdo->State': IDLE, 'size': 20, 'timeout': 100, 'key': 0x20000300, 'csdo->TxId': 0x605, 'call:COTmrGetTicks': 100}
+            if tmr is not None:
+                inputs['call:COTmrCreate'] = tmr
+            trs = _run(m, f, inputs, filt=lambda k, fld: fld == ('CO_CSDO', 'State'))
+            site = '%s on an idle client, timer create %s' % (f, {2: 'succeeds', -1: 'fails', None: 'any result'}[tmr])
+            bad = None
+            for t in trs:
+                last = [e[2] for e in t.stores()][-1:]
+                sends = t.call_names().count('COIfCanSend')
+                if t.ret not in (0, None) and last == [BUSY]:
+                    bad = 'returns error %s but leaves the client BUSY (nothing sent: %s)' % (t.ret, sends == 0)
+                elif t.ret == 0 and (last != [BUSY] or sends != 1):
+                    bad = 'returns 0 with state %s and %d frames sent' % (last, sends)
+            if not trs:
+                bad = 'no path'
+            if bad:
+                ctx.ob(P, 'RF2-csdo-request', f, site, None)
+                ctx.find(P, 'RF2-csdo-request', f, 'all-or-nothing:%s' % tmr, m.loc(f, m.funcs[f].line), '%s: %s' % (site, bad))
+            else:
+                ctx.ob(P, 'RF2-csdo-request', f, site, 'error => not busy; 0 => busy and request sent')
+
+
 def per_frame_refresh(ctx):
     m = ctx.m
     _per_request_refresh(ctx, P, 'COCSdoCheck', 'CO_CSDO', [
@@ -458,6 +488,7 @@ def run(ctx):
     download_segment_template(ctx)
     finalize_once(ctx)
     request_refusal(ctx)
+    request_all_or_nothing(ctx)
     per_frame_refresh(ctx)
     response_table(ctx)
     toggle_and_mux(ctx)
